@@ -53,7 +53,7 @@ impl Property for C13 {
          oracle = brute force over EVERY lattice point of the box and EVERY integer slack value in the new variable's bounds, in exact rational arithmetic; non-trivial = converted, >=2 variables, both feasible and infeasible lattice points; distinct = sha256(instance, call)"
     }
     fn required_labels(&self) -> Vec<String> {
-        ["outcome=converted", "outcome=relaxed", "outcome=infeasible", "outcome=range-exceeded", "reject=unknown-id", "reject=equality", "reject=continuous", "rational-coeff", "quadratic", "op=convert", "op=add-slack", "other-constraints", "negative-box", "binary-variable", "unsorted-variable-list", "limit=needed", "limit=needed-1", "second-conversion"].iter().map(|s| s.to_string()).collect()
+        ["outcome=converted", "outcome=relaxed", "outcome=infeasible", "outcome=range-exceeded", "reject=unknown-id", "reject=equality", "reject=continuous", "reject=undefined-variable", "rational-coeff", "quadratic", "op=convert", "op=add-slack", "other-constraints", "negative-box", "binary-variable", "unsorted-variable-list", "limit=needed", "limit=needed-1", "second-conversion"].iter().map(|s| s.to_string()).collect()
     }
     fn cases(&self, tier: Tier) -> usize {
         match tier {
@@ -75,7 +75,7 @@ impl Property for C13 {
     fn run(&self, t: &mut Tape, ctx: &mut Ctx) -> PResult {
         let op_add = t.coin();
         ctx.label(if op_add { "op=add-slack" } else { "op=convert" });
-        let reject = if t.p(64) { 1 + t.choice(4) } else { 0 }; // 1 unknown id, 2 equality, 3 continuous var, 4 no function
+        let reject = if t.p(64) { 1 + t.choice(5) } else { 0 }; // 1 unknown id, 2 equality, 3 continuous var, 4 no function, 5 undefined variable id in the function
         let limit_mode = t.weighted(&[4, 2, 2, 1]); // exact needed, needed-1, generous, tiny
         let nv = 1 + t.choice(3);
         let quadratic = t.p(90);
@@ -285,6 +285,19 @@ impl Property for C13 {
                 inst.constraints.iter_mut().find(|c| c.id == cid).unwrap().function = None;
                 ctx.label("reject=no-function");
             }
+            5 => {
+                // the inequality mentions a variable id that the instance does not define (here only through a
+                // square with positive coefficient, whose interval [0, inf) keeps the lower bound finite)
+                let undefined: u64 = 4_000_000;
+                let mut p = fpoly.clone();
+                p.add_term(vec![undefined, undefined], qi(1));
+                let terms: Vec<(Vec<u64>, f64)> = p.terms.iter().map(|(k, c)| (k.clone(), q_to_f64(c))).collect();
+                let cfg2 = FuncCfg { regime: Regime::General, allow_unset: false, allow_dup_quad_pos: false, unnormalised: false, ..FuncCfg::default() };
+                let mut scratch = Ctx::new(ctx.tier, false);
+                let g = render(t, &terms, &cfg2, &mut scratch);
+                inst.constraints.iter_mut().find(|c| c.id == cid).unwrap().function = Some(g);
+                ctx.label("reject=undefined-variable");
+            }
             _ => {}
         }
         // limit
@@ -340,7 +353,7 @@ impl Property for C13 {
                     }
                     Ok(())
                 }
-                Ok(()) => fail(format!("C13/reject-{}-accepted", ["", "unknown-id", "equality", "continuous", "no-function"][reject]), format!("call succeeded but must be rejected: {}", what())),
+                Ok(()) => fail(format!("C13/reject-{}-accepted", ["", "unknown-id", "equality", "continuous", "no-function", "undefined-variable"][reject]), format!("call succeeded but must be rejected: {}", what())),
             };
         }
         match res {
